@@ -16,6 +16,7 @@ import (
 	"errors"
 	"fmt"
 	"os"
+	"path/filepath"
 	"runtime"
 	"sort"
 	"strings"
@@ -67,8 +68,42 @@ type Case struct {
 	Perturb []int `json:"perturb,omitempty"` // hook-site perturbation vector (sched.Perturb)
 	Rounds  int   `json:"rounds,omitempty"`  // storage: passes over the chunk list (retries)
 	IndexK  int   `json:"index_k,omitempty"` // index: the index output accepts this many bytes, then fails (-1: /dev/full through LocalIndexStore)
-	Retry   int   `json:"retry,omitempty"`   // cli: --error-retry value
+	Retry   int   `json:"retry,omitempty"`   // cli: --error-retry value; s3/http targets: StoreOptions.ErrorRetry
+
+	// the target store of chop/make/copy/stream: "" or "mem" (dx.MemStore), "local" (desync.LocalStore
+	// in a scratch directory), "s3" (desync.S3Store through internal/fakes3), "http" (desync.RemoteHTTP
+	// against desync.NewHTTPHandler over a LocalStore). Faults of kind has/store are HEAD/PUT requests there.
+	Target string `json:"target,omitempty"`
+	Unc    bool   `json:"unc,omitempty"` // local, s3: uncompressed store
+	// local: the prefix directory of chunk BlockSel (mod count) is a regular file, so that the
+	// store cannot create the chunk (MkdirAll / Stat fail with ENOTDIR)
+	Block    bool `json:"block,omitempty"`
+	BlockSel int  `json:"block_sel,omitempty"`
+	// local: run the operation in a child process under RLIMIT_FSIZE = Fsize (chunk file writes are cut short)
+	ShortWrite bool `json:"short_write,omitempty"`
+	Fsize      int  `json:"fsize,omitempty"`
 }
+
+// targetMix: the target store of a generated chop/make/copy/stream case. "short" = LocalStore in a
+// child process under RLIMIT_FSIZE. Real stores are kept at a low rate (they cost 10..50 ms a case).
+var targetMix = func() []string {
+	var m []string
+	for i := 0; i < 100; i++ {
+		switch {
+		case i%10 == 3:
+			m = append(m, "local")
+		case i%25 == 7:
+			m = append(m, "s3")
+		case i%25 == 12:
+			m = append(m, "http")
+		case i%50 == 21:
+			m = append(m, "short")
+		default:
+			m = append(m, "mem")
+		}
+	}
+	return m
+}()
 
 func cliEnabled() bool { return hx.Thorough() && os.Getenv("VERIF_DESYNC_BIN") != "" }
 
@@ -193,6 +228,27 @@ func genCase(t *rapid.T) Case {
 	if lim := hx.Pick(160_000, 1_500_000); maxLen > lim {
 		maxLen = lim
 	}
+	if c.Op == "chop" || c.Op == "make" || c.Op == "copy" || c.Op == "stream" {
+		c.Target = rapid.SampledFrom(targetMix).Draw(t, "target")
+	}
+	if c.Target != "" && c.Target != "mem" {
+		// real stores cost a file or a request per chunk: keep these inputs small
+		if lim := int(c.Sizes.Avg) * rapid.IntRange(1, 40).Draw(t, "tmult"); maxLen > lim {
+			maxLen = lim
+		}
+		c.Unc = c.Target != "http" && rapid.Bool().Draw(t, "unc")
+		c.Retry = rapid.SampledFrom([]int{0, 0, 1, 3}).Draw(t, "retry")
+	}
+	if c.Target == "short" {
+		c.Target, c.ShortWrite = "local", true
+		c.Unc = rapid.IntRange(0, 3).Draw(t, "swunc") > 0
+		c.Fsize = rapid.SampledFrom([]int{0, 1, int(c.Sizes.Min) - 1, int(c.Sizes.Min), int(c.Sizes.Avg), int(c.Sizes.Max) - 1, int(c.Sizes.Max),
+			rapid.IntRange(0, int(c.Sizes.Max)+64).Draw(t, "fsany")}).Draw(t, "fsize")
+	}
+	if c.Target == "local" && !c.ShortWrite && rapid.IntRange(0, 3).Draw(t, "block") == 0 {
+		c.Block = true
+		c.BlockSel = rapid.IntRange(0, 1<<16).Draw(t, "blocksel")
+	}
 	c.Pieces = dupBlob(t, c.Sizes, maxLen)
 	c.Faults = genFaults(t, c.Op)
 	if rapid.IntRange(0, 9).Draw(t, "prefill") < 4 {
@@ -239,17 +295,30 @@ type judged struct {
 	delivered []string // injected failures that really happened, "dst:has#3"
 	mustFail  string   // "" or the reason why success is wrong regardless of store faults
 	mayFail   string   // "" or a reason that makes an error legitimate without a delivered fault
-	dst       *dx.MemStore
+	view      view     // back door onto what the target really holds
+	tag       string   // "" for the in-memory target, else "local:" / "s3:" / "http:" (part of the signature)
+	target    string   // description of the target for messages
+	// real targets: whether the delivered faults certainly failed a request / were certainly all
+	// absorbed by retries (both false = the retry policy leaves it open). In-memory target: derived
+	// from delivered.
+	certainFail, certainOK bool
 }
 
 func shortID(id [32]byte) string { return fmt.Sprintf("%x", id[:4]) }
 
 // judge applies the C06 statement to one finished operation.
 func judge(o *hx.Outcome, j judged) {
-	p := "C06:" + j.op + ":"
+	p := "C06:" + j.op + ":" + j.tag
+	if j.tag == "" {
+		j.certainFail, j.certainOK = len(j.delivered) > 0, len(j.delivered) == 0
+		if j.target == "" {
+			j.target = "MemStore"
+		}
+	}
+	entries := j.view.all()
 	if j.err == nil {
-		if len(j.delivered) > 0 {
-			o.Fail(p+"success-after-delivered-failure", "%s returned nil although %d injected store failure(s) were delivered: %v", j.op, len(j.delivered), j.delivered)
+		if j.certainFail {
+			o.Fail(p+"success-after-delivered-failure", "%s into %s returned nil although injected store failure(s) were delivered and not absorbed by a retry: %v", j.op, j.target, j.delivered)
 		}
 		if j.mustFail != "" {
 			o.Fail(p+"success-on-"+j.mustFail, "%s returned nil although %s", j.op, j.mustFail)
@@ -261,17 +330,17 @@ func judge(o *hx.Outcome, j judged) {
 				continue
 			}
 			seen[ch.ID] = true
-			raw, ok := j.dst.Raw(ch.ID)
+			raw, ok, derr := j.view.get(ch.ID)
 			switch {
 			case !ok:
 				if missing == 0 {
-					o.Fail(p+"missing-chunk-after-success", "%s returned nil but chunk %d (%s, [%d,+%d)) of the index is not in the target store (%d chunks in the index, %d entries in the store, delivered %v)",
-						j.op, i, shortID(ch.ID), ch.Start, ch.Size, len(j.must), j.dst.Len(), j.delivered)
+					o.Fail(p+"missing-chunk-after-success", "%s into %s returned nil but chunk %d (%s, [%d,+%d)) of the index is not in the backing store (%d chunks in the index, %d entries in the store, delivered %v)",
+						j.op, j.target, i, shortID(ch.ID), ch.Start, ch.Size, len(j.must), len(entries), j.delivered)
 				}
 				missing++
-			case ref.ID(raw, false) != [32]byte(ch.ID):
+			case derr != nil || ref.ID(raw, false) != [32]byte(ch.ID):
 				if invalid == 0 {
-					o.Fail(p+"invalid-chunk-after-success", "%s returned nil but the target holds %d bytes under %s (chunk %d) that do not hash to it", j.op, len(raw), shortID(ch.ID), i)
+					o.Fail(p+"invalid-chunk-after-success", "%s into %s returned nil but the backing store holds %d bytes under %s (chunk %d) that do not hash to it (decode error: %v)", j.op, j.target, len(raw), shortID(ch.ID), i, derr)
 				}
 				invalid++
 			}
@@ -279,14 +348,13 @@ func judge(o *hx.Outcome, j judged) {
 		if j.produced != nil {
 			judgeIndex(o, p, j)
 		}
-	} else if len(j.delivered) == 0 && j.mustFail == "" && j.mayFail == "" {
-		o.Fail(p+"error-without-fault", "%s failed although no store failure was delivered and the input was sound: %v", j.op, j.err)
+	} else if j.certainOK && j.mustFail == "" && j.mayFail == "" {
+		o.Fail(p+"error-without-fault", "%s into %s failed although no store failure was delivered (or every one was absorbed by a retry: %v) and the input was sound: %v", j.op, j.target, j.delivered, j.err)
 	}
 	// whatever was returned: the target never holds data under an ID it does not hash to
-	for _, id := range j.dst.IDs() {
-		raw, _ := j.dst.Raw(id)
-		if ref.ID(raw, false) != [32]byte(id) {
-			o.Fail(p+"store-holds-invalid-data", "after %s (err=%v) the target holds %d bytes under %s that do not hash to it", j.op, j.err, len(raw), shortID(id))
+	for _, e := range entries {
+		if e.err != nil || ref.ID(e.plain, false) != [32]byte(e.id) {
+			o.Fail(p+"store-holds-invalid-data", "after %s into %s (err=%v) the backing store holds %d bytes under %s that do not hash to it (decode error: %v)", j.op, j.target, j.err, len(e.plain), shortID(e.id), e.err)
 			break
 		}
 	}
@@ -360,6 +428,9 @@ func run(c Case) (o hx.Outcome) {
 	if c.Op == "index" {
 		return runIndexWrite(c)
 	}
+	if c.ShortWrite {
+		return runShortWrite(c)
+	}
 	blob := gen.Expand(c.Pieces)
 	sz := c.Sizes
 	if sz.Min < 48 || sz.Avg < sz.Min || sz.Max <= sz.Avg { // hand-edited replay: keep the precondition
@@ -388,11 +459,32 @@ func run(c Case) (o hx.Outcome) {
 		}
 	}
 	dst.OnCall, src.OnCall = yield, yield
+	realTarget := (c.Target == "local" || c.Target == "s3" || c.Target == "http") && op != "storage"
+	var tdir string
+	if realTarget {
+		tdir = hx.Scratch("c06t")
+		defer os.RemoveAll(tdir)
+	} else {
+		c.Target = "mem"
+	}
+	tg := newTarget(c, tdir, dst)
+	defer tg.close()
+	// a regular file where the store wants a directory: no chunk with that prefix can be stored
+	blocked := false
+	var blockedID desync.ChunkID
+	if c.Block && tg.kind == "local" && nch > 0 {
+		blockedID = idx.Chunks[c.BlockSel%nch].ID
+		dx.WriteFile(filepath.Join(tdir, "store"), blockedID.String()[:4], []byte("not a directory"))
+		blocked = true
+	}
 	prefilled := map[desync.ChunkID]bool{}
 	if c.PrefillEvery > 0 {
 		for i, ch := range idx.Chunks {
+			if blocked && ch.ID.String()[:4] == blockedID.String()[:4] {
+				continue
+			}
 			if i%c.PrefillEvery == ((c.PrefillRem%c.PrefillEvery)+c.PrefillEvery)%c.PrefillEvery {
-				dst.Put(ch.ID, blob[ch.Start:ch.Start+ch.Size])
+				tg.put(ch.ID, blob[ch.Start:ch.Start+ch.Size])
 				prefilled[ch.ID] = true
 			}
 		}
@@ -405,8 +497,7 @@ func run(c Case) (o hx.Outcome) {
 		switch {
 		case f.Store == "src" && f.Kind == "get" && op == "copy":
 			src.FailAt("get", f.K)
-		case f.Store != "src" && (f.Kind == "has" || f.Kind == "store"):
-			dst.FailAt(f.Kind, f.K)
+		case f.Store != "src" && tg.failAt(f.Kind, f.K):
 		default:
 			continue
 		}
@@ -438,7 +529,8 @@ func run(c Case) (o hx.Outcome) {
 	}
 
 	ctx := context.Background()
-	j := judged{op: op, blob: blob, must: idx.Chunks, reference: idx, dst: dst}
+	j := judged{op: op, blob: blob, must: idx.Chunks, reference: idx, view: tg.view, tag: tg.tag, target: tg.desc}
+	ws := tg.store
 	base := runtime.NumGoroutine()
 	un := sched.Perturb(c.Perturb)
 	restore := func() map[string]int { sched.Quiesce(base); return un() }
@@ -464,7 +556,7 @@ func run(c Case) (o hx.Outcome) {
 			j.produced = &got
 			j.must = got.Chunks
 		}
-		j.err = desync.ChopFile(ctx, path, chunks, dst, n, desync.NullProgressBar{})
+		j.err = desync.ChopFile(ctx, path, chunks, ws, n, desync.NullProgressBar{})
 		hits = restore()
 		if flipped {
 			j.mustFail = "mismatched-file"
@@ -484,14 +576,16 @@ func run(c Case) (o hx.Outcome) {
 			}
 		}
 		for id := range missing {
-			if !prefilled[id] {
+			// S3Store.HasChunk answers "absent" when its HEAD fails: with a scheduled HEAD fault a
+			// prefilled chunk may be fetched from the source all the same
+			if !prefilled[id] || (tg.kind == "s3" && scheduled["has"]) {
 				j.mayFail = "the source lacks a chunk the target needs"
 			}
 		}
 		if len(missing) > 0 {
 			o.Class("src-missing")
 		}
-		j.err = desync.Copy(ctx, ids, src, dst, n, desync.NullProgressBar{})
+		j.err = desync.Copy(ctx, ids, src, ws, n, desync.NullProgressBar{})
 		hits = restore()
 	case "stream":
 		ck, err := desync.NewChunker(bytes.NewReader(blob), sz.Min, sz.Avg, sz.Max)
@@ -500,7 +594,7 @@ func run(c Case) (o hx.Outcome) {
 			o.Fail("C06:stream:chunker-rejects-sizes", "NewChunker(%v): %v", sz, err)
 			return o
 		}
-		got, err := desync.ChunkStream(ctx, ck, dst, n)
+		got, err := desync.ChunkStream(ctx, ck, ws, n)
 		hits = restore()
 		j.err = err
 		if err == nil {
@@ -515,11 +609,18 @@ func run(c Case) (o hx.Outcome) {
 		return o
 	}
 
+	tgDelivered, tgFail, tgOK := tg.verdict()
+	srcDelivered := deliveredOf("src", src)
 	if op != "storage" {
-		j.delivered = append(deliveredOf("dst", dst), deliveredOf("src", src)...)
+		j.delivered = append(append([]string(nil), tgDelivered...), srcDelivered...)
+		j.certainFail = tgFail || len(srcDelivered) > 0
+		j.certainOK = tgOK && len(srcDelivered) == 0
+		if blocked {
+			j.mustFail = "a-prefix-directory-that-is-a-file"
+		}
 		judge(&o, j)
 	}
-	delivered := dst.Delivered() + src.Delivered()
+	delivered := len(tgDelivered) + len(srcDelivered)
 
 	// two workers that asked the target about the same ID (visible for Copy only: ChunkStorage
 	// filters duplicates before they reach the store)
@@ -539,7 +640,27 @@ func run(c Case) (o hx.Outcome) {
 	dupRace := n >= 2 && distinct < nch
 
 	// ---- classification
-	o.Class("op:" + op)
+	o.Class("op:"+op, "target:"+tg.kind)
+	if realTarget {
+		if c.Unc && tg.kind != "http" {
+			o.Class("target:uncompressed")
+		}
+		if tg.kind == "s3" || tg.kind == "http" {
+			o.Class(fmt.Sprintf("%s:error-retry=%d", tg.kind, clamp(c.Retry, 0, 5)))
+			if len(tgDelivered) > 0 {
+				o.Class(tg.kind + ":fault-delivered")
+				switch {
+				case tgFail:
+					o.Class(tg.kind + ":fault-not-absorbed")
+				case tgOK:
+					o.Class(tg.kind + ":fault-absorbed-by-retry")
+				}
+			}
+		}
+		if blocked {
+			o.Class("local:blocked-dir")
+		}
+	}
 	for k := range scheduled {
 		o.Class("fault:" + k)
 	}
@@ -590,15 +711,15 @@ func run(c Case) (o hx.Outcome) {
 	if len(c.Perturb) > 0 && hits[jobSite] > 0 {
 		o.Class("perturbed:" + jobSite)
 	}
-	o.Nontrivial = delivered >= 1 || dupRace || sameIDTwice || flipped
+	o.Nontrivial = delivered >= 1 || dupRace || sameIDTwice || flipped || blocked || (realTarget && nch > len(prefilled))
 	var fdesc []string
 	for _, f := range c.Faults {
 		fdesc = append(fdesc, fmt.Sprintf("%s:%s#%d", f.Store, f.Kind, f.K))
 	}
 	sort.Strings(fdesc)
-	o.Desc = map[string]any{"op": op, "len": len(blob), "shape": gen.Shape(c.Pieces), "sizes": sz, "chunks": nch, "distinct": distinct, "n": n,
+	o.Desc = map[string]any{"op": op, "target": tg.desc, "len": len(blob), "shape": gen.Shape(c.Pieces), "sizes": sz, "chunks": nch, "distinct": distinct, "n": n,
 		"faults": fdesc, "delivered": delivered, "prefill_every": c.PrefillEvery, "flip_chunk": flipChunk, "err": j.err != nil}
-	o.Key = fmt.Sprintf("%s/%d/%s/%v/%d/%v/%d/%d/%d/%v", op, len(blob), hx.Hash8(blob), sz, n, fdesc, delivered, c.PrefillEvery, flipChunk, c.SrcMissing)
+	o.Key = fmt.Sprintf("%s/%d/%s/%v/%d/%v/%d/%d/%d/%v/%s/%v", op, len(blob), hx.Hash8(blob), sz, n, fdesc, delivered, c.PrefillEvery, flipChunk, c.SrcMissing, tg.desc, blocked)
 	return o
 }
 
@@ -706,12 +827,17 @@ var spec = &hx.Spec[Case]{
 	Level: "fault_enumeration",
 	Rule: "cases = (blob with many duplicate chunks: constant runs of k*max, repeats of earlier content; (min,avg,max); n in 1..16; operation in {make = IndexFromFile+ChopFile, ChopFile with a reference-built index, " +
 		"Copy over the index's IDs incl. duplicates, ChunkStream, ChunkStorage used directly with retries; thorough: desync make/chop/cache/tar -i against a harness HTTP store}; target optionally prefilled; " +
+		"target store of chop/make/copy/stream in {MemStore; desync.LocalStore in a scratch directory (compressed/uncompressed; optionally with a regular file in place of a prefix directory; optionally in a child process under RLIMIT_FSIZE so that chunk file writes are cut short); " +
+		"desync.S3Store through the in-process fake S3 (compressed/uncompressed, ErrorRetry 0/1/3, scripted 403 on the k-th PUT/HEAD); desync.RemoteHTTP -> desync.NewHTTPHandler -> LocalStore (ErrorRetry 0/1/3, scripted 500 on the k-th PUT/HEAD)}, judged on the backing files/objects read through a back door; " +
 		"fault schedule = set of (store, call kind has/store/get, call number k) that fail (CLI: the k-th HEAD/PUT/GET answers 500); ChopFile also on a file with one bit flipped after indexing; perturbation vector for chop.job/copy.job/chunkstream.job and the store callbacks); " +
 		"TestEnum: every single k (1..calls+1) x every call kind x every operation x several n for inputs of <= 40 chunks, and a bit flip in every chunk; " +
 		"oracle: nil => every ID of the given/produced index is in the target and hashes to it (crypto/sha512 directly), produced index == reference chunker, Length == len(input); >= 1 delivered failure => error; flipped file => error; the target never holds bytes under a foreign ID; " +
 		"non-trivial = >= 1 delivered failure, or duplicate IDs with n >= 2 (workers can race on one ID; for Copy: the same ID asked twice in the target's call log), or a flipped file; distinct by (op, blob hash, sizes, n, schedule, delivered count, prefill, flip position)",
 	Assumptions: []string{
-		"targets are in-memory stores that keep exactly what they are given; an injected failure has no side effect (the failing call stores nothing)",
+		"in-memory targets keep exactly what they are given; an injected failure has no side effect (the failing call stores nothing)",
+		"real targets: backing files/objects are decoded with klauspost/zstd and hashed with crypto/sha512 by the harness; S3 is the in-process fake of internal/fakes3 (path-style, V2 credentials, keep-alive off, minio.MaxRetry=1, faults are final 403s); HTTP is plain HTTP/1.1 on loopback without keep-alive",
+		"retry policies of S3Store/RemoteHTTP are modelled only in their unambiguous zone (a request faulted on more attempts than ErrorRetry permits has failed; fewer faults than attempts on every request is recovered); a faulted HEAD on S3 is absorbed by design (S3Store.HasChunk maps every error to absent)",
+		"short writes: RLIMIT_FSIZE in a re-exec'd child of the test binary; the set of chunk files that cannot be written is known exactly only for uncompressed stores",
 		"a scheduled failure whose call number is never reached is 'not delivered'; success is then legitimate",
 		"contexts are never cancelled here (C07)",
 		"ChunkStorage ops cannot show two store calls for one ID in the call log (duplicates are filtered before the store); the race is provoked by duplicate-rich inputs, n >= 2 and yields inside the store callbacks, not observed directly",
@@ -721,7 +847,9 @@ var spec = &hx.Spec[Case]{
 	},
 	Required: []string{"op:make", "op:chop", "op:copy", "op:stream", "op:storage", "op:index", "index:write-fault-delivered", "index:fault-in-last-buffered-part", "index:dev-full", "fault:has", "fault:store", "fault:get", "delivered>=1", "delivered>=2",
 		"scheduled-not-delivered", "dup-race-possible", "same-id-asked-twice", "flip", "flip-in-duplicated-chunk", "prefilled", "prefilled-all", "src-missing", "success", "error-returned",
-		"perturbed:chop.job", "perturbed:copy.job", "perturbed:chunkstream.job", "storage:retry-after-failure", "empty-index"},
+		"perturbed:chop.job", "perturbed:copy.job", "perturbed:chunkstream.job", "storage:retry-after-failure", "empty-index",
+		"target:mem", "target:local", "target:s3", "target:http", "target:uncompressed", "s3:error-retry=0", "s3:error-retry=1", "s3:error-retry=3", "http:error-retry=0", "http:error-retry=3",
+		"s3:fault-not-absorbed", "s3:fault-absorbed-by-retry", "http:fault-not-absorbed", "http:fault-absorbed-by-retry", "local:blocked-dir", "local:short-write", "local:short-write-delivered"},
 	Gen:      genCase,
 	Run:      run,
 	Journal:  true,
@@ -729,6 +857,9 @@ var spec = &hx.Spec[Case]{
 }
 
 func TestMain(m *testing.M) {
+	if job := os.Getenv("VERIF_C06_CHILD"); job != "" {
+		childMain(job) // never returns
+	}
 	if cliEnabled() {
 		spec.Required = append(spec.Required, "op:cli-make", "op:cli-chop", "op:cli-cache", "op:cli-tar", "cli:delivered-500", "cli:exit-0", "cli:exit-nonzero")
 	}
@@ -775,6 +906,60 @@ func TestEnumIndex(t *testing.T) {
 	}
 	hx.AddNote("enum_index_write_points", n)
 	hx.Exhaustive("every byte count at which the index output fails, for the enumeration inputs")
+}
+
+// TestEnumTargets: a fixed grid over the real target stores (every store kind x retry setting x
+// operation x a few single faults, and the short-write limits around the chunk sizes), dealt
+// round-robin to the shards.
+func TestEnumTargets(t *testing.T) {
+	b := enumBlobs()[0]
+	slot, cases := 0, 0
+	mine := func() bool { slot++; return (slot-1)%hx.Shards() == hx.Shard() }
+	type tcfg struct {
+		target string
+		unc    bool
+		retry  int
+	}
+	cfgs := []tcfg{{"local", false, 0}, {"local", true, 0}, {"s3", false, 0}, {"s3", true, 1}, {"s3", false, 3}, {"http", false, 0}, {"http", false, 1}, {"http", false, 3}}
+	faults := [][]Fault{nil, {{Store: "dst", Kind: "store", K: 1}}, {{Store: "dst", Kind: "store", K: 3}, {Store: "dst", Kind: "store", K: 4}}, {{Store: "dst", Kind: "has", K: 2}}}
+	for _, cfg := range cfgs {
+		for _, op := range []string{"chop", "make", "copy", "stream"} {
+			for fi, fs := range faults {
+				if cfg.target == "local" && fi > 0 {
+					continue
+				}
+				if !mine() {
+					continue
+				}
+				c := Case{Op: op, Pieces: b.Pieces, Sizes: b.Sizes, N: 1 + 2*(fi%2), Target: cfg.target, Unc: cfg.unc, Retry: cfg.retry, Faults: fs, PrefillEvery: []int{0, 3}[fi%2]}
+				cases++
+				if !hx.Case(t, spec, c) {
+					return
+				}
+				if cfg.target == "local" {
+					c.Block, c.BlockSel = true, 1
+					cases++
+					if !hx.Case(t, spec, c) {
+						return
+					}
+				}
+			}
+		}
+	}
+	// short writes: limits at and around the chunk sizes of the input (max = 256)
+	for i, fsize := range []int{0, 1, 47, 100, 255, 256, 2000} {
+		for _, unc := range []bool{true, false} {
+			if !mine() {
+				continue
+			}
+			c := Case{Op: []string{"chop", "stream", "make", "copy"}[i%4], Pieces: b.Pieces, Sizes: b.Sizes, N: 1 + i%3, Target: "local", Unc: unc, ShortWrite: true, Fsize: fsize, PrefillEvery: []int{0, 4}[i%2]}
+			cases++
+			if !hx.Case(t, spec, c) {
+				return
+			}
+		}
+	}
+	hx.AddNote("enum_target_cases", cases)
 }
 
 func TestEnum(t *testing.T) {
@@ -861,43 +1046,45 @@ func TestSelf(t *testing.T) {
 	base := judged{op: "chop", blob: blob, must: idx.Chunks, reference: idx}
 
 	j := base
-	j.dst = full()
+	j.view = memView{full()}
 	if got := sigs(j); got != "" {
 		fail("complete store after success flagged", got, "")
 	}
 	j = base
-	j.dst = full()
-	j.dst.Delete(idx.Chunks[2].ID)
+	fs := full()
+	fs.Delete(idx.Chunks[2].ID)
+	j.view = memView{fs}
 	if got := sigs(j); got != "C06:chop:missing-chunk-after-success" {
 		fail("missing chunk after success", got, "C06:chop:missing-chunk-after-success")
 	}
 	j = base
-	j.dst = full()
-	j.dst.Put(idx.Chunks[1].ID, []byte("other bytes"))
+	fs = full()
+	fs.Put(idx.Chunks[1].ID, []byte("other bytes"))
+	j.view = memView{fs}
 	if got := sigs(j); got != "C06:chop:invalid-chunk-after-success,C06:chop:store-holds-invalid-data" {
 		fail("invalid chunk after success", got, "invalid-chunk-after-success,store-holds-invalid-data")
 	}
 	j = base
-	j.dst = full()
+	j.view = memView{full()}
 	j.delivered = []string{"dst:has#1"}
 	if got := sigs(j); got != "C06:chop:success-after-delivered-failure" {
 		fail("success after a delivered failure", got, "C06:chop:success-after-delivered-failure")
 	}
 	j = base
-	j.dst = dx.NewMemStore("dst")
+	j.view = memView{dx.NewMemStore("dst")}
 	j.err = dx.ErrInjected
 	j.delivered = []string{"dst:has#1"}
 	if got := sigs(j); got != "" {
 		fail("error after a delivered failure flagged", got, "")
 	}
 	j = base
-	j.dst = dx.NewMemStore("dst")
+	j.view = memView{dx.NewMemStore("dst")}
 	j.err = dx.ErrInjected
 	if got := sigs(j); got != "C06:chop:error-without-fault" {
 		fail("error without fault", got, "C06:chop:error-without-fault")
 	}
 	j = base
-	j.dst = full()
+	j.view = memView{full()}
 	j.mustFail = "mismatched-file"
 	if got := sigs(j); got != "C06:chop:success-on-mismatched-file" {
 		fail("mismatched file accepted", got, "C06:chop:success-on-mismatched-file")
@@ -908,8 +1095,9 @@ func TestSelf(t *testing.T) {
 	bad.Chunks[0].ID[0] ^= 1
 	j = base
 	j.op = "stream"
-	j.dst = full()
-	j.dst.Put(bad.Chunks[0].ID, blob[:bad.Chunks[0].Size]) // present, but not valid under that ID
+	fs = full()
+	fs.Put(bad.Chunks[0].ID, blob[:bad.Chunks[0].Size]) // present, but not valid under that ID
+	j.view = memView{fs}
 	j.produced, j.must = &bad, bad.Chunks
 	if got := sigs(j); !strings.Contains(got, "C06:stream:index-range-id") || !strings.Contains(got, "C06:stream:index-differs-from-reference") {
 		fail("wrong ID in a produced index", got, "index-range-id + index-differs-from-reference")
@@ -918,7 +1106,7 @@ func TestSelf(t *testing.T) {
 	short.Chunks = idx.Chunks[:len(idx.Chunks)-1]
 	j = base
 	j.op = "make"
-	j.dst = full()
+	j.view = memView{full()}
 	j.produced, j.must = &short, short.Chunks
 	if got := sigs(j); !strings.Contains(got, "C06:make:index-length") {
 		fail("short produced index", got, "index-length")
